@@ -789,6 +789,62 @@ def stream_table_stub(ctx: Ctx) -> Stream:
 
 
 # ---------------------------------------------------------------------------------------------
+# stream: rows-text (the JSON text form of exported rows: CPython json vs the model's writeText / readText)
+
+
+TEXT_ALPHABET = ['a', 'b', 'Z', '0', '9', '#', '.', '_', '[', ']', ' ', '"', '\\', '/', '\n', '\t', '\x01', '\x7f', 'é', 'あ', '\U0001f600', "'", ':', ',', '{', '}']
+
+
+def gen_text_rows(rng: random.Random, i: int) -> dict[str, dict[str, Any]]:
+	def word() -> str:
+		return ''.join(rng.choice(TEXT_ALPHABET if i % 3 else TEXT_ALPHABET[:10]) for _ in range(rng.randint(0 if i % 5 == 0 else 1, 8)))
+	data: dict[str, dict[str, Any]] = {}
+	for _ in range(rng.randint(0, 5)):
+		keys = [word() for _ in range(3)]
+		attrs = py_flatten(gen_forest(rng, rng.randint(0, 3), 3, keys, wide=i % 7 == 0)) if rng.random() < 0.7 else {}
+		if rng.random() < 0.4:
+			row: dict[str, Any] = {'class': 'Symbol', 'types': word(), 'attrs': attrs}
+		else:
+			row = {'class': 'Reflection', 'node': word(), 'decl': word(), 'origin': word(), 'via': word(), 'attrs': attrs}
+		data[word()] = row
+	return data
+
+
+def text_ops(data: dict[str, dict[str, Any]], cut: int | None = None) -> tuple[list[str], list[str]]:
+	"""write the rows as persistent.py does, read them back; `cut` = also read a proper prefix of the text (a file cut short)"""
+	text = json.dumps(data, separators=(',', ':'))
+	ops = [f't.text\t{rows_text(data)}', f't.read\t{hx(text)}']
+	real = [hx(text)]
+	try:
+		real.append('ok ' + rows_text(json.loads(text)))
+	except Exception as e:  # noqa: BLE001
+		real.append(exc_enum(e))
+	if cut is not None and len(text) > 1:
+		part = text[:1 + cut % (len(text) - 1)]
+		ops.append(f't.read\t{hx(part)}')
+		try:
+			json.loads(part)
+			real.append('parsed')  # never: a proper prefix of an object is no JSON text
+		except ValueError:
+			real.append('JSONDecodeError')
+	return ops, real
+
+
+@stream_deadline(120, 900)
+def stream_rows_text(ctx: Ctx) -> Stream:
+	rng = ctx.sub_rng('rows-text')
+	cases = []
+	for i in range(ctx.scale(150, 1500)):
+		data = gen_text_rows(rng, i)
+		ops, real = text_ops(data, cut=rng.randrange(1 << 16) if i % 2 else None)
+		cases.append(({'rows': len(data), 'plain': not (i % 3), 'paths': sum(len(r['attrs']) for r in data.values())}, ops, real))
+	st = common.correspond('rows-text', cases, FAMILY, classify=lambda d: f"rows={min(d['rows'], 3)}{'+' if d['rows'] >= 3 else ''},{'plain' if d['plain'] else 'escapes'},paths{'>0' if d['paths'] else '=0'}")
+	st.note = ("random rows of both shapes whose keys / DSNs / type keys contain quotes, backslashes, control characters, non-ASCII and astral characters: "
+		"json.dumps(rows, separators=(',', ':')) vs model writeText (byte for byte), json.loads of the text vs model readText, and a proper prefix of the text (JSONDecodeError on both sides)")
+	return st
+
+
+# ---------------------------------------------------------------------------------------------
 # search on stub tables: the same laws with oracles written independently of the code under test
 
 
@@ -803,7 +859,7 @@ def search_stub_laws(ctx: Ctx) -> SearchResult:
 	from rogw.tranp.semantics.reflection.db import SymbolDB
 	from rogw.tranp.semantics.reflection.serializer import ReflectionSerializer
 	rng = ctx.sub_rng('stub-laws')
-	res = SearchResult('stub tables: expand = own pre-order walk, rebuild∘flatten = id, export→import restores every entry, import twice, completed, order law')
+	res = SearchResult('stub tables: expand = own pre-order walk, rebuild∘flatten = id, export→import restores every entry (types, node, decl, via, attribute forest), import twice, completed, order law')
 	hist: Counter[str] = Counter()
 	seen: set[str] = set()
 	seen_keys: set[str] = set()
@@ -1775,6 +1831,7 @@ def real_pass(ctx: Ctx) -> tuple[list[Stream], SearchResult]:
 	inv_hist: Counter[str] = Counter()
 	inv_broken: list[str] = []
 	inv_cases: list[tuple[Any, list[str], list[str]]] = []
+	txt_cases: list[tuple[Any, list[str], list[str]]] = []
 	n_tables = 0
 	stop_at = time.time() + ctx.scale(300, 1800)  # wall deadline of the pass: programs after it are counted, not run
 	for ld, stats in load_programs(ctx, 'real', ctx.scale(36, 500), REAL_MODULES[:ctx.scale(2, len(REAL_MODULES))]):
@@ -1810,7 +1867,11 @@ def real_pass(ctx: Ctx) -> tuple[list[Stream], SearchResult]:
 					res.cases += 1
 					fnd = check_module(ld, m)
 					try:
-						inv = invariants_of(db, db.to_json(ser, m), m)
+						exported_rows = db.to_json(ser, m)
+						if ld.kind != 'real' or (m == LIB_CLASSES and not any(d.get('module') == LIB_CLASSES for d, _, _ in txt_cases)):
+							t_ops, t_real = text_ops(exported_rows)
+							txt_cases.append(({'kind': ld.kind, 'rows': len(exported_rows), 'name': f'{ld.name}:{m}', 'module': m}, t_ops, t_real))
+						inv = invariants_of(db, exported_rows, m)
 						inv_ops.append(f't.inv\t{hx(m)}\t{class_ranks(db, m)}')
 						inv_real.append(f"Loaded={'true' if inv['Loaded'] else 'false'} SymOK={'true' if inv['SymOK'] else 'false'} ViaOK={'true' if inv['ViaOK'] else 'false'}")
 						order_ok = not any(f.key.startswith('order:') for f in fnd)
@@ -1865,11 +1926,14 @@ def real_pass(ctx: Ctx) -> tuple[list[Stream], SearchResult]:
 	res.histogram = {**dict(hist), **{f'load:{k}': v for k, v in stats.items()}, **{f'invariants:{k}': v for k, v in inv_hist.items()}}
 	# the three model runs are independent driver processes (the order stream alone pipes ~20 MB of table skeletons): run them side by side
 	from concurrent.futures import ThreadPoolExecutor
-	with ThreadPoolExecutor(max_workers=3) as pool:
+	with ThreadPoolExecutor(max_workers=4) as pool:
+		f4 = pool.submit(common.correspond, 'rows-text-real', txt_cases, FAMILY, classify=lambda d: f"{d['kind']}:rows{'>=20' if d['rows'] >= 20 else '<20'}")
 		f3 = pool.submit(common.correspond, 'invariants-real', inv_cases, FAMILY, classify=lambda d: d['kind'])
 		f1 = pool.submit(common.correspond, 'serialize-real', ser_cases, FAMILY, classify=lambda d: f"{d['kind']}:depth={min(d['depth'], 6)}{'+' if d['depth'] >= 6 else ''}:width{'>=10' if d['width'] >= 10 else '<10'}")
 		f2 = pool.submit(common.correspond, 'order-real', ord_cases, FAMILY, classify=lambda d: d['kind'])
-		s3, s1, s2 = f3.result(), f1.result(), f2.result()
+		s3, s1, s2, s4 = f3.result(), f1.result(), f2.result(), f4.result()
+	s4.note = ("the export of every in-memory module (and once of the library module `classes`) written as persistent.py writes it: json.dumps(rows, separators=(',', ':')) vs model "
+		'writeText byte for byte, json.loads of the text vs model readText')
 	s3.cases = max(s3.cases, sum(inv_hist.values()))
 	s3.histogram = {**s3.histogram, **dict(inv_hist)}
 	s3.disagreements += [{'case': n, 'real': 'order law fails', 'model': 'Loaded holds, so C14.order forbids it'} for n in inv_broken]
@@ -1879,7 +1943,7 @@ def real_pass(ctx: Ctx) -> tuple[list[Stream], SearchResult]:
 		'empty modules (no symbol) are not asked to be `completed`: import_json marks a module only when it imports one of its keys (db.py:176-180)')
 	s1.note = f'real ReflectionSerializer.serialize on every symbol of each in-memory module of generated / fixed programs and of real modules (with their dependencies) vs model serialize; load statistics {dict(stats)}'
 	s2.note = 'real SymbolDB._order_keys(module) and _order_keys(None) on the loaded tables vs model orderKeys on the skeleton (key, types.fullyname, attribute forest)'
-	return [s1, s2, s3], res
+	return [s1, s2, s3, s4], res
 
 
 # ---------------------------------------------------------------------------------------------
@@ -1910,6 +1974,10 @@ STATEMENTS = {
 	'C14.rt_exact': 'under SymOK, the order law and ViaOK (a class entry is its own via; a via key names an entry of that very type): after export of M and import into the table of the other modules EVERY key has exactly the entry it had — types, node, decl, via, attribute forest — and each restored entry serializes to the row it was imported from (a second export writes the same rows)',
 	'C14.rt_loaded_exact': 'rt_exact with the order law supplied by C14.order from Loaded',
 	'C14.rt_unload_exact': 'the application path: unload(M) (db.py:144-156) gives the table of the other modules, and importing the export of M into it restores every key exactly and completes the modules of the imported keys — for every Loaded table with SymOK and ViaOK',
+	'C14.text_rt': "for every row list with non-empty index paths, whatever characters keys and DSNs contain: json.loads of json.dumps(rows, separators=(',', ':')), taken apart by key the way deserialize reads a row, is the rows",
+	'C14.export_text_rt': 'for every export of a module: the written text reads back as the exported rows, is pure ASCII (utf-8 encoding is the identity), and no object in it has a repeated key (row keys and the path keys of each row are pairwise distinct: dict = list of pairs)',
+	'C14.rt_text_exact': 'export → text → json.loads → import into the unloaded table, end to end: succeeds and every key has exactly its old entry again, for every Loaded table with SymOK and ViaOK',
+	'C14.shipped_rt_text': 'the same end-to-end statement for the shipped library modules, without hypotheses',
 	'C14.shipped_via': 'ViaOK holds for every module of the GENERATED library table — decided by the kernel',
 	'C14.shipped_rt_exact': 'for the shipped library modules, without hypotheses: the table after export and import is the table before, key by key and field by field (via included), and a second export writes the same rows',
 	'C14.shipped_invariants': 'for every module of the GENERATED library table (translate/gen_symbol_tables.py, re-generated from the real SymbolDB on every run): Loaded and SymOK hold — decided by the kernel',
@@ -1942,7 +2010,7 @@ def run(ctx: Ctx) -> int:
 		translate_ok, translate_msg = False, f'translator gen_symbol_state / gen_symbol_rows / gen_symbol_tables: {type(e).__name__}: {exc_text(e)}'
 	proof = common.prove(ctx, PROP, leanchecker=ctx.thorough)
 	with ctx.timed('correspondence'):
-		streams = [stream_expand_stub(ctx), stream_identity_stub(ctx), stream_dsn(ctx), stream_rebuild_stub(ctx), stream_order_stub(ctx), stream_table_stub(ctx)]
+		streams = [stream_expand_stub(ctx), stream_identity_stub(ctx), stream_dsn(ctx), stream_rebuild_stub(ctx), stream_order_stub(ctx), stream_table_stub(ctx), stream_rows_text(ctx)]
 	with ctx.timed('real_pass(correspondence+search)'):
 		real_streams, law = real_pass(ctx)
 	streams += real_streams
@@ -1953,7 +2021,8 @@ def run(ctx: Ctx) -> int:
 		statements=STATEMENTS,
 		partial={
 			'proved': 'attribute flattening / rebuilding round trip for every forest; grouping fact; import idempotence; completed; table round trip under SymOK; the export-order law for every Loaded table (repaired algorithm); the exact round trip (every field incl. via, every key incl. the other modules, re-export writes the same rows) under SymOK + Loaded + ViaOK',
-			'correspondence_only': 'loaded tables other than the generated library sub-table satisfy SymOK, Loaded and ViaOK (evaluated on every real table by a harness paraphrase and, for a sample, by the Lean definitions themselves in the compiled driver: stream invariants-real); non-prefix-closed dicts against entries with attributes (walk into a shared entry) stay outside the model',
+			'correspondence_only': 'loaded tables other than the generated library sub-table satisfy SymOK, Loaded and ViaOK (evaluated on every real table by a harness paraphrase and, for a sample, by the Lean definitions themselves in the compiled driver: stream invariants-real); the library module `classes` (338 entries, left out of the generated table: too slow for the kernel) is evaluated as M by the compiled driver once per run; non-prefix-closed dicts against entries with attributes (walk into a shared entry) stay outside the model',
+			'text_level': 'the JSON text form is modelled (C15 printJson / parseJson, tied to CPython json by streams rows-text and rows-text-real) and the text round trip is a theorem (text_rt, export_text_rt, rt_text_exact); outside the model: white space, floats, objects with a repeated key (an export writes none: export_text_rt)',
 		},
 		assumptions=[
 			"the importer is modelled on canonical decimal path components only (C14.export_paths_canonical: the exporter writes nothing else; C14.canonical_roundtrip: int / str are inverse there); other spellings int() accepts ('01', '+1', ' 1', '1_0') occur in hand-written JSON only and are never generated",
